@@ -1,8 +1,8 @@
+\* Negative configuration: the seeded fault "norun" of Persist.tla must violate WriteThrough.
 SPECIFICATION Spec
 CONSTANTS
     Deep = FALSE
     Bug = "norun"
     DoEmit = FALSE
-INVARIANTS WriteThrough ReportsRunning TypeOK
-PROPERTIES RefusedChangesNothing RestartRestores CrashAtomic AcceptedEverywhere
+INVARIANTS WriteThrough
 VIEW View
